@@ -632,8 +632,98 @@ func c12AfterJump(w *run.Worker) {
 	}
 }
 
+// c12Sequences: the same extraction call executed again in ONE run after its subject got another
+// value - by assignment, by add_key on the point, as the variable of a for-in loop, or because the
+// call itself wrote into its subject. What is stored must be what the engine extracts from the text
+// the subject holds AT THAT CALL (nothing remembered per subject name, per call site or per run).
+func c12Sequences(w *run.Worker) {
+	S, Id := rt.Str, rt.Id
+	type maker func(k string) []*rt.Node
+	type family struct {
+		name     string
+		makers   []maker
+		subjects []string
+	}
+	fams := []family{
+		{"grok", []maker{
+			func(k string) []*rt.Node {
+				return []*rt.Node{rt.Call("p", rt.Call("grok", Id(k), S("%{INT:gi:int} %{WORD:gw}")), rt.Call("get_key", Id("gi")), rt.Call("get_key", Id("gw")))}
+			},
+			func(k string) []*rt.Node {
+				return []*rt.Node{rt.Call("p", rt.Call("grok", Id(k), S("^%{WORD:gw}$")), rt.Call("get_key", Id("gw")))}
+			},
+			func(k string) []*rt.Node { // captures into its own subject
+				return []*rt.Node{rt.Call("p", rt.Call("grok", Id(k), S("%{INT:"+k+"}")), Id(k))}
+			},
+		}, []string{"12 ab", "7 zz", "word", "no match here", ""}},
+		{"xml", []maker{
+			func(k string) []*rt.Node {
+				return []*rt.Node{rt.Call("xml", Id(k), S("/a/b"), Id("dst")), rt.Call("p", rt.Call("get_key", Id("dst")))}
+			},
+			func(k string) []*rt.Node {
+				return []*rt.Node{rt.Call("xml", Id(k), S("//d"), Id("dst2")), rt.Call("p", rt.Call("get_key", Id("dst2")))}
+			},
+			func(k string) []*rt.Node { // unwraps into its own subject
+				return []*rt.Node{rt.Call("xml", Id(k), S("/a/b"), Id(k)), rt.Call("p", Id(k), rt.Call("get_key", Id(k)))}
+			},
+		}, []string{`<a><b>1</b></a>`, `<a><b>2</b><c><d>deep</d></c></a>`, `<a><b><![CDATA[<a><b>inner</b></a>]]></b></a>`, `<c><d>other</d></c>`, `not xml`}},
+		{"sql_cover", []maker{
+			func(k string) []*rt.Node { return []*rt.Node{rt.Call("sql_cover", Id(k)), rt.Call("p", Id(k))} },
+		}, []string{"select * from t where id = 42", `select * from t where dir = 'C:\'`, "not sql '", `select "a\b" from t where x = 'y'`}},
+		{"default_time", []maker{
+			func(k string) []*rt.Node { return []*rt.Node{rt.Call("default_time", Id(k)), rt.Call("p", Id(k))} },
+			func(k string) []*rt.Node {
+				return []*rt.Node{rt.Call("default_time", Id(k), S("Asia/Tokyo")), rt.Call("p", Id(k))}
+			},
+		}, []string{"2014-04-26 17:24:37", "2021-01-02T03:04:05Z", "1609556645", "garbage"}},
+	}
+	for _, f := range fams {
+		for m1, mk1 := range f.makers {
+			for m2, mk2 := range f.makers {
+				for _, s1 := range f.subjects {
+					for _, s2 := range f.subjects {
+						for mode := 0; mode < 4; mode++ {
+							if mode >= 2 && m1 != m2 {
+								continue
+							}
+							if f.name == "default_time" && mode != 1 {
+								continue
+							}
+							if !w.Take() {
+								continue
+							}
+							pt := PointSpec{Meas: "m", Tags: map[string]string{"o2": "t"}, Fields: map[string]any{"o1": int64(5)}, Time: 1600000000000000000}
+							var stmts []*rt.Node
+							switch mode {
+							case 0: // a variable assigned between the calls
+								stmts = append(stmts, rt.Assign("=", Id("k"), S(s1)))
+								stmts = append(stmts, mk1("k")...)
+								stmts = append(stmts, rt.Assign("=", Id("k"), S(s2)))
+								stmts = append(stmts, mk2("k")...)
+							case 1: // a point field rewritten by add_key between the calls
+								pt.Fields["k"] = s1
+								stmts = append(stmts, mk1("k")...)
+								stmts = append(stmts, rt.Call("add_key", Id("k"), S(s2)))
+								stmts = append(stmts, mk2("k")...)
+							case 2: // the variable of a for-in loop
+								stmts = append(stmts, rt.ForIn("d", rt.List(S(s1), S(s2), S(s1)), rt.Block(mk1("d")...)))
+							case 3: // a three-clause loop indexing a list of subjects
+								stmts = append(stmts, rt.Assign("=", Id("docs"), rt.List(S(s1), S(s2), S(s1))))
+								body := append([]*rt.Node{rt.Assign("=", Id("k"), rt.Index("docs", Id("i")))}, mk1("k")...)
+								stmts = append(stmts, rt.For(rt.Assign("=", Id("i"), rt.Int(0)), rt.Bin("<", Id("i"), rt.Int(3)), rt.Assign("=", Id("i"), rt.Bin("+", Id("i"), rt.Int(1))), rt.Block(body...)))
+							}
+							c12Exec(w, "sequence-"+f.name, stmts, pt, "")
+						}
+					}
+				}
+			}
+		}
+	}
+}
+
 func c12Run(w *run.Worker) {
 	c12AfterJump(w)
+	c12Sequences(w)
 	c12XMLSQL(w)
 	c12Time(w)
 	c12Typed(w)
@@ -671,6 +761,7 @@ func init() {
 			"(2) 14 patterns (all capture types, convertible and inconvertible text, pattern capturing into its own subject) x trim_space {absent,true,false} x 6 subject situations x 14 subject values; " +
 			"(1b) 10 arrangements of definitions and grok calls after a conditional break/continue in a loop body and after the loop x 2 jumps x 5 guards (never taken, else branch, taken in the second round, nested, jump of an inner loop) x 2 loop kinds x plain / inside an if block; subjects include floats and ints whose string form must be plain decimals (12345678.0, 0.00005, 1e21, 2^53+1); " + 
 			"(3) default_time on the 66 documented layouts + 6 house layouts + non-timestamps, every house layout written for 5 instants x {padded, unpadded day/hour} x 6 numeric zones (positive, negative, half-hour) x 3 zone arguments, 4 base timestamps x 21 zone arguments (fixed-offset labels, IANA names, invalid) x subject situations, every numeric label of the documented table (DST-free ones in January, southern ones in July); datetime over 18 formats x 4 precisions x 16 epoch values (incl. floats with a fractional part) x 3 situations; " +
+			"(2b) the same grok / xml / sql_cover / default_time call executed again in one run after its subject got another value (assignment, add_key, for-in variable, indexed list in a three-clause loop, the call writing into its own subject): all ordered pairs of calls of a family x all ordered pairs of 4-5 subjects; " +
 			"(4) xml: 20 documents (well-formed, and malformed in ways a lenient decoder tolerates) x 13 XPath queries x 4 destination spellings x subject situations; (5) sql_cover: 20 strings x 5 situations, all ordered pairs of 6 backslash-bearing statements in one run; oracle: whole final point incl. time, probe trace (grok's boolean), load verdict",
 		Assumptions: []string{"grok, xmlquery/xpath, dateparse, time, obfuscate are the trusted engines, called directly by the reference", "zone labels are checked against fixed offsets for DST-free zones / winter dates; DST-in-January labels, the CST label and year-less layouts are unspecified cells; IANA names incl. UTC are also run with summer and DST-switch dates", "the text of the failure note after the prefix `time convert failed` is not compared"},
 		Run:            c12Run,
